@@ -250,7 +250,7 @@ def register_push(reg):
         )
 
     reg.add(Contract(
-        f"{CH}._push", self_cls="ConnectHelper", props=["C06.1", "C05.1"], params={"time": TimeOpt}, result=Bool,
+        f"{CH}._push", self_cls="ConnectHelper", props=["C06.1", "C05.1", "C04.4"], params={"time": TimeOpt}, result=Bool,
         requires=helper_inv, ensures=push_post,
         modifies=lambda ctx: [(None, f) for f in RET + ["_time", "_output_info"]] +
         [(WORLD, "$push_log"), (WORLD, "$notify_log"), (ctx.self, "_pushed_data"), (ctx.self, "_out_data_cache"),
@@ -364,7 +364,7 @@ def register_connect(reg):
             inv_in(ctx))
 
     reg.add(Contract(
-        f"{CH}._exchange_in_infos", self_cls="ConnectHelper", props=["C06.1", "C05.1"], params={}, result=Bool,
+        f"{CH}._exchange_in_infos", self_cls="ConnectHelper", props=["C06.1", "C05.1", "C04.4"], params={}, result=Bool,
         requires=inv_in, ensures=ex_post,
         modifies=lambda ctx: [(None, f) for f in EXCH_FIELDS] + [(ctx.self, "_exchanged_in_infos"), (ctx.self, "_in_info_cache")],
         raises={"FinamMetaDataError": lambda ctx: z3.BoolVal(True)},
@@ -507,7 +507,7 @@ def register_connect2(reg):
             helper_wf(ctx))
 
     reg.add(Contract(
-        f"{CH}.connect", self_cls="ConnectHelper", props=["C06.1", "C06.3", "C05.1"],
+        f"{CH}.connect", self_cls="ConnectHelper", props=["C06.1", "C06.3", "C05.1", "C04.4"],
         params={"start_time": TimeOpt, "exchange_infos": TOpt(InfoDict), "push_infos": TOpt(InfoDict), "push_data": TOpt(TDict(Str, PAYOBJ))},
         result=Int, requires=helper_wf, ensures=status_post,
         modifies=lambda ctx: [(None, f) for f in EXCH_FIELDS + RET + ["_time", "_cached_data"]] +
